@@ -17,6 +17,7 @@ import (
 	"bytes"
 	"fmt"
 	"io"
+	"math/big"
 	"math/rand"
 	"os"
 	"os/exec"
@@ -853,6 +854,280 @@ func (g *gen) degenerateRandomness(w *world) {
 	}
 }
 
+// ---------------------------------------------------------------------------------------------
+// randomness failure while a crossing D-H Commit is handled
+//
+// The sweep above fails every read of ONE linear exchange. A conversation that has a key exchange of
+// its own under way when a D-H Commit of the peer arrives (both sides started at once, or the peer
+// started again) has more to lose: the exchange in progress is kept or given up depending on a
+// comparison of hashes, and the answer needs fresh randomness. Whatever the randomness source does
+// during that one call, the call returns, the conversation handles what comes NEXT - every kind of
+// message the peer, or anybody on the wire, may send next, the randomness source working again - and
+// a private conversation can be established and used afterwards.
+//   states of a:   awaiting the D-H Key, awaiting the Signature, the same two within an established session
+//   commits:       the genuine one of a peer that started at the same time, made-up ones with the
+//                  highest and the lowest hash there is (both outcomes of the comparison), a well-formed
+//                  one of a random D-H value
+//   failure:       the k-th read from Conversation.Rand counted from that call fails / comes back short
+//   next message:  see crossingNexts
+// Violation keys: panic-at-crossing-commit, panic-on-message-after-randomness-failure,
+// unusable-after-randomness-failure.
+
+var crossingStates = []string{"awaiting the D-H Key message", "awaiting the Signature message", "in an established session, awaiting the D-H Key message of a new exchange", "in an established session, awaiting the Signature message of a new exchange"}
+var crossingCommits = []string{"the genuine D-H Commit of the peer, who started an exchange of its own at the same time", "a made-up D-H Commit whose hash is ff…ff (higher than any of ours)", "a made-up D-H Commit whose hash is 00…00 (lower than any of ours)", "a well-formed D-H Commit of a random D-H value"}
+var crossingNexts = []string{"the same D-H Commit once more", "a D-H Commit whose hash is ff…ff", "a D-H Commit whose hash is 00…00", "the genuine message of the peer that was in flight (the answer to our own last key exchange message)", "a well-formed D-H Key message", "a well-formed Reveal Signature message", "a Signature message", "a query message", "a text the user sends", "everything genuine that is in flight, in both directions"}
+
+func crossingCommitWire(version int, sender, receiver uint32, enc, hash []byte) []byte {
+	return encodeWire(otr3.AppendData(otr3.AppendData(akeHeader(version, 0x02, sender, receiver), enc), hash))
+}
+
+func (g *gen) randomGroupElement() *big.Int {
+	x := make([]byte, 40)
+	g.r.Read(x)
+	return new(big.Int).Exp(big.NewInt(2), new(big.Int).SetBytes(x), new(big.Int).SetBytes(groupP))
+}
+
+func firstAKEWire(ms []otr3.ValidMessage) []byte {
+	for _, m := range ms {
+		if isAKEWire(m) {
+			return m
+		}
+	}
+	return nil
+}
+
+func (g *gen) crossingCommitFailureSweep(w *world) {
+	// the core: a conversation without a session, every commit, every next message, the read of that
+	// very call; protocol version and kind of failure alternate (differently from seed to seed)
+	off := g.r.Intn(4)
+	for st := 0; st < 2; st++ {
+		for ck := range crossingCommits {
+			for nx := range crossingNexts {
+				g.crossingCommitFailure(w, 2+(st+ck+nx+off)%2, st, ck, nx, (st+ck+nx/2+off/2)%2 == 1, 0)
+			}
+		}
+	}
+	// a sample of the rest: within an established session; a failure one read later (it falls into
+	// whatever draws randomness next)
+	for i := 0; i < 24; i++ {
+		st, k := 2+g.r.Intn(2), 0
+		if i%4 == 3 {
+			st, k = g.r.Intn(4), 1
+		}
+		g.crossingCommitFailure(w, 2+g.r.Intn(2), st, g.r.Intn(len(crossingCommits)), g.r.Intn(len(crossingNexts)), g.r.Intn(2) == 0, k)
+	}
+}
+
+func (g *gen) crossingCommitFailure(w *world, version, st, ck, nx int, short bool, k int) {
+	w.parties = map[string]*party{}
+	w.dead = false
+	pol := 2
+	if version == 3 {
+		pol = 4
+	}
+	a := w.newParty(partyCfg{policies: pol, keyIdx: 0, errh: true})
+	b := w.newParty(partyCfg{policies: pol, keyIdx: 1, errh: true})
+	l := &link{w: w, a: a, b: b}
+	missed := func(why string) { g.dist["crossing:precondition-missed:"+why]++ }
+
+	// ---- a has a key exchange of its own under way
+	if st >= 2 {
+		l.enqueue(b, []otr3.ValidMessage{w.query(b)})
+		l.settle(30)
+		if w.dead || !a.c.IsEncrypted() || !b.c.IsEncrypted() {
+			missed("session")
+			return
+		}
+		w.tick(75)
+	}
+	_, ts, _, _ := w.recv(a, w.query(b))
+	ca := firstAKEWire(ts) // our D-H Commit
+	if w.dead || ca == nil || otr3.VerifSnapshot(a.c).AkeState != 1 {
+		missed("commit")
+		return
+	}
+	var crossing []byte
+	if ck == 0 && st%2 == 0 {
+		// the peer starts at the same time: its D-H Commit and ours are both in flight
+		w.tick(75)
+		_, tb, _, _ := w.recv(b, w.query(a))
+		crossing = firstAKEWire(tb)
+	}
+	_, tb, _, _ := w.recv(b, ca)
+	held := append([]otr3.ValidMessage{}, tb...) // b's genuine messages in flight towards a
+	if st%2 == 1 {
+		// on to the Reveal Signature message; b's Signature message stays in flight
+		if len(held) == 0 {
+			missed("dhkey")
+			return
+		}
+		_, ts, _, _ = w.recv(a, held[0])
+		if w.dead || len(ts) == 0 || otr3.VerifSnapshot(a.c).AkeState != 3 {
+			missed("revealsig")
+			return
+		}
+		_, tb, _, _ = w.recv(b, ts[0])
+		held = append([]otr3.ValidMessage{}, tb...)
+		if ck == 0 {
+			// the peer starts again
+			w.tick(75)
+			_, tb, _, _ = w.recv(b, w.query(a))
+			crossing = firstAKEWire(tb)
+		}
+	}
+	if w.dead {
+		missed("setup-panic")
+		return
+	}
+	sa, sb := otr3.VerifSnapshot(a.c), otr3.VerifSnapshot(b.c)
+	tagA, tagB := sa.OurTag, sb.OurTag
+	if version == 3 && tagB == 0 {
+		tagB = 0x100 + uint32(g.r.Intn(1000))
+	}
+	blob := func(n int) []byte {
+		x := make([]byte, n)
+		g.r.Read(x)
+		return x
+	}
+	commit := func(kind int) []byte {
+		recv := tagA
+		if g.r.Intn(3) == 0 {
+			recv = 0
+		}
+		switch kind {
+		case 1:
+			return crossingCommitWire(version, tagB, recv, blob(196), bytes.Repeat([]byte{0xff}, 32))
+		case 2:
+			return crossingCommitWire(version, tagB, recv, blob(196), make([]byte, 32))
+		default:
+			return craftedCommit(version, tagB, recv, blob(16), g.randomGroupElement())
+		}
+	}
+	if ck != 0 {
+		crossing = commit(ck)
+	}
+	if crossing == nil {
+		missed("peer-commit")
+		return
+	}
+	what := fmt.Sprintf("OTRv%d, %s: %s arrives while read %d of Conversation.Rand counted from this call fails (short=%v)", version, crossingStates[st], crossingCommits[ck], k, short)
+	g.dist[fmt.Sprintf("crossing:state%d:commit%d:next%d", st, ck, nx)]++
+
+	// ---- the crossing D-H Commit, the randomness source failing
+	base := a.rnd.reads
+	if short {
+		a.rnd.shortAt = base + k
+	} else {
+		a.rnd.failAt = base + k
+	}
+	_, ts, _, pan := w.recv(a, crossing)
+	olog.ok("C13")
+	if pan {
+		olog.viol("C13", "panic-at-crossing-commit", what+": Receive panicked")
+		return
+	}
+	l.enqueue(a, ts)
+	if a.rnd.reads > base+k {
+		g.dist["crossing:failure-hit-the-call"]++
+	}
+
+	// ---- what comes next
+	var next [][]byte
+	switch nx {
+	case 0:
+		next = [][]byte{crossing}
+	case 1, 2:
+		next = [][]byte{commit(nx)}
+	case 3:
+		for _, m := range held {
+			next = append(next, m)
+		}
+		held = nil
+	case 4:
+		next = [][]byte{dhKeyWire(version, tagB, tagA, g.randomGroupElement().Bytes())}
+	case 5:
+		gx, gy := g.randomGroupElement(), g.randomGroupElement()
+		next = [][]byte{craftedRevealSig(version, tagB, tagA, blob(16), gx, gy, g.randomGroupElement(), 1, g.r)}
+	case 6:
+		next = [][]byte{encodeWire(append(otr3.AppendData(akeHeader(version, 0x12, tagB, tagA), blob(200+g.r.Intn(300))), blob(20)...))}
+	case 7:
+		w.tick(75)
+		next = [][]byte{w.query(b)}
+	}
+	olog.ok("C13")
+	for _, m := range next {
+		_, ts, _, pan := w.recv(a, m)
+		if pan {
+			olog.viol("C13", "panic-on-message-after-randomness-failure", fmt.Sprintf("%s; that call returned; the next message is %s: Receive panicked on %.60q… (%d bytes)", what, crossingNexts[nx], m, len(m)))
+			return
+		}
+		l.enqueue(a, ts)
+	}
+	if nx == 8 {
+		ts, _ := w.send(a, g.cleanText())
+		if w.dead {
+			olog.viol("C13", "panic-on-message-after-randomness-failure", fmt.Sprintf("%s; that call returned; next, %s: Send panicked", what, crossingNexts[nx]))
+			return
+		}
+		l.enqueue(a, ts)
+	}
+	// everything genuine that is in flight arrives
+	l.enqueue(b, held)
+	l.settle(40)
+	if w.dead {
+		olog.viol("C13", "panic-on-message-after-randomness-failure", fmt.Sprintf("%s; that call returned; next came %s, then the genuine messages in flight: a call panicked", what, crossingNexts[nx]))
+		return
+	}
+	a.rnd.failAt, a.rnd.shortAt = -1, -1 // from here on the randomness source works
+
+	// ---- usable? A private conversation exists and carries a text each way - or, where the failure has
+	// left the two sides in different sessions or in none, one can be established afresh and does
+	olog.ok("C13")
+	exchange := func() bool {
+		for _, d := range [][2]*party{{b, a}, {a, b}} {
+			text := g.cleanText()
+			ts, _ := w.send(d[0], text)
+			got := false
+			for _, t := range ts {
+				if w.dead {
+					break
+				}
+				p, back, _, _ := w.recv(d[1], t)
+				l.enqueue(d[1], back)
+				if bytes.Equal(p, text) {
+					got = true
+				}
+			}
+			if w.dead || !got {
+				return false
+			}
+		}
+		return true
+	}
+	ok := a.c.IsEncrypted() && b.c.IsEncrypted() && exchange()
+	for try := 0; try < 2 && !ok && !w.dead; try++ {
+		g.dist[fmt.Sprintf("crossing:fresh-start-%d", try+1)]++
+		ts, _ := w.end(a)
+		l.enqueue(a, ts)
+		ts, _ = w.end(b)
+		l.enqueue(b, ts)
+		l.settle(10)
+		w.tick(3600)
+		if try == 0 {
+			l.enqueue(b, []otr3.ValidMessage{w.query(b)})
+		} else {
+			l.enqueue(a, []otr3.ValidMessage{w.query(a)})
+		}
+		l.settle(40)
+		ok = !w.dead && a.c.IsEncrypted() && b.c.IsEncrypted() && exchange()
+	}
+	if w.dead {
+		olog.viol("C13", "unusable-after-randomness-failure", fmt.Sprintf("%s; next came %s; afterwards (randomness working) a call panicked while a private conversation was established or used", what, crossingNexts[nx]))
+	} else if !ok {
+		olog.viol("C13", "unusable-after-randomness-failure", fmt.Sprintf("%s; next came %s; afterwards (randomness working) no private conversation that carries a text each way exists, nor can one be established: both sides ended whatever they had, an hour passed, a query message of either side in turn was answered by the other, all messages delivered (a encrypted: %v, b encrypted: %v)", what, crossingNexts[nx], a.c.IsEncrypted(), b.c.IsEncrypted()))
+	}
+}
+
 func init() {
 	if os.Getenv(pwWorkerEnv) != "" {
 		parseWorker()
@@ -878,6 +1153,7 @@ func init() {
 		g.randFailureSweep(w, false)
 		g.randFailureSweep(w, true)
 		g.degenerateRandomness(w)
+		g.crossingCommitFailureSweep(w)
 		extra["panics"] = panicCount
 		olog.export(extra)
 		return g.dist
